@@ -4,6 +4,7 @@ import (
 	"crypto/sha256"
 	"encoding/hex"
 	"encoding/json"
+	"strconv"
 	"strings"
 
 	"github.com/conduitio/conduit/pkg/provisioning"
@@ -88,6 +89,16 @@ func change(base config.Pipeline, kind string, k int) config.Pipeline {
 					break
 				}
 			}
+		}
+	case "proc-gen-all": // every processor changes: an in-place apply has several swaps to make (and to undo)
+		bumpAll := func(ps []config.Processor) {
+			for i := range ps {
+				ps[i].Settings = map[string]string{"gen": gen}
+			}
+		}
+		bumpAll(c.Processors)
+		for i := range c.Connectors {
+			bumpAll(c.Connectors[i].Processors)
 		}
 	case "conn-setting":
 		i := k % len(c.Connectors)
@@ -174,8 +185,25 @@ func (r *runner) stepPlan(i int, st Step) {
 		return
 	}
 	r.plans = append(r.plans, planned{base: nb, desired: desired, hash: d.Hash, kind: st.Tag})
-	r.log.Add("Planned", "pid", len(r.plans), "kind", st.Tag, "hash", d.Hash[:12], "empty", d.Empty(),
-		"live_eligible", d.LiveEligible(), "changes", len(d.Changes), "desired", cfgHash(desired))
+	gens := map[string]int{}
+	note := func(ps []config.Processor) {
+		for _, p := range ps {
+			g, _ := strconv.Atoi(p.Settings["gen"])
+			gens[p.ID] = g
+		}
+	}
+	note(desired.Processors)
+	for _, c := range desired.Connectors {
+		note(c.Processors)
+	}
+	// which parts of the configuration the change is about: two changes about disjoint parts are independent,
+	// i.e. once one of them is applied the plan of the other one no longer matches (it would revert the first)
+	touches := map[string][]string{
+		"proc-gen": {"procs"}, "proc-gen-all": {"procs"}, "add-proc": {"procs"}, "del-proc": {"procs"},
+		"conn-setting": {"conn"}, "desc": {"desc"}, "dlq": {"dlq"}, "none": {},
+	}[st.Tag]
+	r.log.Add("Planned", "touches", touches, "pid", len(r.plans), "kind", st.Tag, "hash", d.Hash[:12], "empty", d.Empty(),
+		"live_eligible", d.LiveEligible(), "changes", len(d.Changes), "desired", cfgHash(desired), "gens", gens)
 }
 
 // baseOf returns the un-enriched config corresponding to what is currently applied.
